@@ -137,20 +137,17 @@ func c19(args []string) error {
 					b.AddSequenceChar(c.Name(), c.SequenceChar(), "")
 					return b, nil
 				}}
-		case 9: // Sample: shares by design
+		case 9: // Sample: the sample owns its rows (they used to be slices of the source: repaired)
 			nb := 1 + r.Intn(nseq)
-			var idx []int
-			op = c19op{"Sample", func() string { return "OViewRows " + coqZList(idx) },
+			op = c19op{"Sample", func() string { return "OFresh " + coqStr("Sample") },
 				func(a align.Alignment) (align.SeqBag, error) {
-					rand.Seed(seed)
-					idx = rand.Perm(nseq)[:nb]
 					rand.Seed(seed)
 					return a.Sample(nb)
 				}}
-		case 10: // RandSubAlign(consecutive): shares by design
+		case 10: // RandSubAlign(consecutive): a copy of the window, like SubAlign (it used to be a view: repaired)
 			l := 1 + r.Intn(L)
 			var start int
-			op = c19op{"RandSubAlign", func() string { return fmt.Sprintf("OViewWindow %s %s", coqZ(start), coqZ(l)) },
+			op = c19op{"RandSubAlign", func() string { return fmt.Sprintf("OSubAlign %s %s", coqZ(start), coqZ(l)) },
 				func(a align.Alignment) (align.SeqBag, error) {
 					rand.Seed(seed)
 					start = rand.Intn(L - l + 1)
